@@ -65,6 +65,13 @@ def generate_econ_ic(seed, S):
         else:
             new.append({'op': 'AddInitialCondition', 'by': 'code', 'model': info['model'], 'fullcode': code, 'var': var, 'value': val})
         expect.append([code + '__' + var, val])
+    if rng.random() < 0.4:
+        # re-state an exogenous path: "Overwrites an existing variable definition"
+        exo_ops = [o for o in ops if o['op'] == 'SetExogenous']
+        if exo_ops:
+            o = exo_ops[rng.randrange(len(exo_ops))]
+            vals = [round(rng.uniform(1, 50), 1) for _ in range(T + 3)]
+            new.append({'op': 'SetExogenous', 'sector': o['sector'], 'var': o['var'], 'value': vals})
     ops = ops[0:main_i] + new + ops[main_i:]
     return {'kind': 'ECON_IC', 'profile': 'econ_ic', 'ops': ops, 'expect': {'ics': expect, 'T': T, 'misuse': None},
             'block': {'eqs': [], 'lags': [], 'ics': [], 'exo': [], 'maxtime': T, 'err_tol': None},
@@ -98,7 +105,12 @@ def execute_econ_ic(case):
         # exogenous paths given to SetExogenous (list, tuple, string) are read back verbatim
         from .. import econref as R
         d = R.declare(case['ops'])
+        last_exo = {}
         for (sh, var, value, as_tuple) in d.exogenous:
+            last_exo[(sh, var)] = (sh, var, value, as_tuple)
+        if len(last_exo) != len(d.exogenous):
+            stats['probes']['exogenous_restated'] = 1
+        for (sh, var, value, as_tuple) in last_exo.values():
             if sh not in d.sectors or viol:
                 continue
             name = R.full_code(d, sh) + '__' + var
